@@ -18,6 +18,7 @@ func init() {
 			"D3 on every path through one iteration of the shard-assignment loops a shard is appended to exactly one node bucket (the no-owner skip is a recorded finding; giving up returns nil from shuffleShards); the 'source already mapped' guard reads the map the loop fills; " +
 			"D4 the value-type dispatch on the remote read path is exhaustive over the five iterator/point types. " +
 			"D6 a remote iterator that breaks off makes the query fail: a coordinator handler that streams a query iterator to the connection writes to the connection when that call fails, before it returns (the reader takes a clean end of the connection for the end of the data; found and fixed in a6058eb). " +
+			"D7 every fan-out method of ClusterShardMapping/ClusterStoreMapping passes the loop over the remote shard groups on every path to a return that may report success, unless the path established that there are no remote groups. " +
 			"NOT decided: liveness of owners, equality of the merged result with a single-node result, a connection cut by the network or a crash of the serving node exactly at a frame boundary (the point stream has no end marker the reader insists on).",
 		RuleText:    "obligation = (rule, function, site); nil/outcome dataflow per decode site; per-iteration min/max count of bucket appends over the loop's path graph; case sets of type switches against the iterator family",
 		Assumptions: commonAssumptions,
@@ -196,9 +197,7 @@ func runC05(c *core.Ctx) {
 			findOrAbort(c, f, "errgroup.Wait", evCall(wait), 1)
 			n += returnsOnlyAfterOK(c, f, "success-only-after-ok-round", "executor/"+m+" or g.Wait", either, nil)
 			// dirty before re-partition
-			dirty := func(e *core.Event) bool {
-				return e.Kind == core.EvCall && core.CalleeName(e) == "sync.(*Map).Store" && core.RecvFieldOf(e) == "remoteShardGroup.dirty"
-			}
+			dirty := evCall(fieldCallIn(f, "remoteShardGroup.dirty", "Store"))
 			shuffle := calleeIn(f, rsg("shuffleShards"))
 			orderRule(c, f, "dirty-before-reshuffle", "dirty.Store", "shuffleShards", dirty, evCall(shuffle))
 			// the retry is skipped when retry is disabled: the first error is returned
@@ -208,9 +207,7 @@ func runC05(c *core.Ctx) {
 				if len(l.Graph().Find(evCall(lexec))) == 0 {
 					continue
 				}
-				ldirty := func(e *core.Event) bool {
-					return e.Kind == core.EvCall && core.CalleeName(e) == "sync.(*Map).Store" && core.RecvFieldOf(e) == "remoteShardGroup.dirty"
-				}
+				ldirty := evCall(fieldCallIn(l, "remoteShardGroup.dirty", "Store"))
 				k := 0
 				for _, e := range l.Graph().Events {
 					if e.Kind != core.EvReturn || !l.Flow().Reachable(e) {
@@ -232,9 +229,7 @@ func runC05(c *core.Ctx) {
 		}
 		// shuffleShards picks only clean owners: the dirty set is consulted
 		sh := c.Fn(rsg("shuffleShards"))
-		load := func(e *core.Event) bool {
-			return e.Kind == core.EvCall && core.CalleeName(e) == "sync.(*Map).Load" && core.RecvFieldOf(e) == "remoteShardGroup.dirty"
-		}
+		load := evCall(fieldCallIn(sh, "remoteShardGroup.dirty", "Load"))
 		findOrAbort(c, sh, "dirty.Load", load, 1)
 		// ClusterShardMapping / ClusterStoreMapping fan-outs
 		for _, nm := range []string{coord + ".(*ClusterShardMapping).FieldDimensions", coord + ".(*ClusterShardMapping).CreateIterator",
@@ -483,6 +478,8 @@ func runC05(c *core.Ctx) {
 
 	c.Clause("D6", func() { runStreamFailureSignalled(c) })
 
+	c.Clause("D7", func() { runEveryRemoteGroupConsulted(c) })
+
 	c.Clause("D4", func() {
 		family := []string{"Float", "Integer", "Unsigned", "String", "Boolean"}
 		check := func(fn string, suffix string, pkgPrefix string, minSwitches int) {
@@ -689,4 +686,117 @@ func isOwnersLenGuard(info *types.Info, path []*core.Event, shard types.Object) 
 	}
 	v, _ := constInt(tv.Value)
 	return v == 0 && (be.Op == token.GTR || be.Op == token.EQL || be.Op == token.NEQ)
+}
+
+// runEveryRemoteGroupConsulted is shared by C05 (D7) and C11 (D6).
+func runEveryRemoteGroupConsulted(c *core.Ctx) {
+	// every fan-out of the cluster mappings asks every remote shard group: no return that may report success is
+	// reachable without passing the loop over RemoteShardMapping (an answer computed from the local shards alone
+	// depends on where the data lives)
+	n := 0
+	for _, f := range c.P.FuncsIn(coord) {
+		if f.Decl == nil || f.Decl.Recv == nil || f.Body == nil {
+			continue
+		}
+		if !strings.HasPrefix(f.Name, coord+".(*ClusterShardMapping).") && !strings.HasPrefix(f.Name, coord+".(*ClusterStoreMapping).") {
+			continue
+		}
+		info := f.Info()
+		// the loop over the remote groups: a range statement whose operand mentions RemoteShardMapping
+		var heads []*core.Event
+		for _, l := range f.Graph().Loops() {
+			rs, ok := l.Stmt.(*ast.RangeStmt)
+			if !ok || !strings.Contains(core.ExprStr(rs.X), "RemoteShardMapping") && !strings.Contains(core.ExprStr(rs.X), "RemoteShardGroups") {
+				continue
+			}
+			if f.NumResults() == 0 || f.Decl.Name.Name == "Close" {
+				continue
+			}
+			// only loops that call something on the group (fan-outs), not bookkeeping such as Close
+			calls := false
+			ast.Inspect(rs.Body, func(nd ast.Node) bool {
+				if ce, ok := nd.(*ast.CallExpr); ok {
+					if se, ok := ce.Fun.(*ast.SelectorExpr); ok && se.Sel.Name == f.Decl.Name.Name {
+						calls = true
+					}
+				}
+				return true
+			})
+			if calls {
+				heads = append(heads, l.Head)
+			}
+		}
+		if len(heads) == 0 {
+			continue
+		}
+		n++
+		isHead := func(e *core.Event) bool {
+			for _, h := range heads {
+				if e == h {
+					return true
+				}
+			}
+			return false
+		}
+		_ = info
+		isRemote := func(x ast.Expr) bool {
+			s := core.ExprStr(x)
+			return strings.Contains(s, "RemoteShardMapping") || strings.Contains(s, "RemoteShardGroups")
+		}
+		bad := map[*core.Event]bool{}
+		seen := map[*core.Event]bool{}
+		complete := f.Flow().ExplorePathsMarked(func(k core.VarKey, fct core.Fact) bool {
+			return k.Root == nil && strings.HasPrefix(k.Path, "cond:") && fct.Def != nil && isRemote(fct.Def)
+		}, func(e *core.Event) string {
+			if isHead(e) {
+				return "asked"
+			}
+			return ""
+		}, func(e *core.Event, st core.State) {
+			if e.Kind != core.EvReturn {
+				return
+			}
+			if f.ErrResultIndex() >= 0 {
+				if fact, _ := f.ReturnErrFact(e); fact.Nil == core.NonNil {
+					return
+				}
+			}
+			seen[e] = true
+			if core.Marked(st, "asked") {
+				return
+			}
+			// nothing to ask: the path established that there are no remote groups
+			for k, fct := range st {
+				if k.Root != nil || !strings.HasPrefix(k.Path, "cond:") || fct.Def == nil || fct.Bool == 0 {
+					continue
+				}
+				var atoms []atomB
+				decompose(fct.Def, fct.Bool == 1, &atoms)
+				for _, a := range atoms {
+					be, ok := ast.Unparen(a.x).(*ast.BinaryExpr)
+					if !ok || !isRemote(be.X) || !strings.HasPrefix(core.ExprStr(be.X), "len(") {
+						continue
+					}
+					if tv := f.Info().Types[be.Y]; tv.Value == nil || tv.Value.String() != "0" {
+						continue
+					}
+					if be.Op == token.EQL && a.val || (be.Op == token.NEQ || be.Op == token.GTR) && !a.val {
+						return
+					}
+				}
+			}
+			bad[e] = true
+		})
+		c.Need(complete, "exploration bound "+f.Name)
+		k := 0
+		for _, e := range f.Graph().Events {
+			if !seen[e] {
+				continue
+			}
+			k++
+			c.Check("every-remote-group-consulted", fmt.Sprintf("%s/return#%d", f.Name, k), c.P.Pos(e.Pos()), !bad[e],
+				"a result is returned without asking the remote shard groups (and without having established that there are none): the answer is computed from the shards of this node only and differs from the answer the same data gives on one node")
+		}
+	}
+	c.Floor("fan-out methods of the cluster mappings", n, 6)
 }
